@@ -753,3 +753,53 @@ Definition effect_sequenced (p : fcprog) : bool :=
   let dtor_impure := existsb (impure imp0 false []) delayed in
   let imp := if dtor_impure then impure_fix n p true [] else imp0 in
   forallb (fun d => sequenced codata imp dtor_impure (fdbody d)) (fcpdefs p).
+
+(* ---------- goto_type_mismatch: the second defect class ----------
+   The checker annotates `goto a (t)` with the type EXPECTED of the goto expression
+   (fun/src/syntax/terms/goto.rs: `self.ty = Some(expected.clone())`), and fun2core uses that
+   annotation as the type of the covariable occurrence `a`.  When it differs from the type with
+   which `a` is bound (label, consumer parameter, clause parameter), `typed_free_vars` does not
+   recognise the occurrence as bound (a binder removes only the identical binding), so a shared
+   continuation containing the goto gets a spurious parameter `a` that may be unbound at the call.
+   [goto_type_mismatch env t]: some goto in t targets a covariable whose binding type differs from
+   the goto's annotation.  env: covariables in scope with their types (None = shadowed by a
+   producer binder). *)
+Fixpoint lookup_ty (env : list (string * option fty)) (x : string) : option (option fty) :=
+  match env with
+  | [] => None
+  | (y, t) :: r => if String.eqb y x then Some t else lookup_ty r x
+  end.
+Definition env_of_ctx (c : fctx) (env : list (string * option fty)) : list (string * option fty) :=
+  rev_append (map (fun b => (fbvar b, match fbchi b with FCns => Some (fbty b) | FPrd => None end)) c) env.
+Fixpoint goto_type_mismatch (env : list (string * option fty)) (t : fterm) : bool :=
+  let any := fix go (l : list fterm) : bool :=
+    match l with [] => false | y :: r => goto_type_mismatch env y || go r end in
+  let any_cls := fix go (l : list fclause) : bool :=
+    match l with
+    | [] => false
+    | FClause _ _ _ ctx body :: r => goto_type_mismatch (env_of_ctx ctx env) body || go r
+    end in
+  match t with
+  | FVar _ _ _ | FLit _ => false
+  | FOp a _ b => goto_type_mismatch env a || goto_type_mismatch env b
+  | FIfC _ a b t1 t2 _ =>
+      goto_type_mismatch env a || (match b with Some b' => goto_type_mismatch env b' | None => false end)
+      || goto_type_mismatch env t1 || goto_type_mismatch env t2
+  | FPrint _ a next _ => goto_type_mismatch env a || goto_type_mismatch env next
+  | FLet v _ bound body _ => goto_type_mismatch env bound || goto_type_mismatch ((v, None) :: env) body
+  | FCall _ args _ => any args
+  | FCtor _ args _ => any args
+  | FDtor scrut _ _ args _ => goto_type_mismatch env scrut || any args
+  | FCase scrut _ cls _ => goto_type_mismatch env scrut || any_cls cls
+  | FNew cls _ => any_cls cls
+  | FLabel l t' ty => goto_type_mismatch ((l, ty) :: env) t'
+  | FGoto l t' ty =>
+      (match lookup_ty env l, ty with
+       | Some (Some lty), Some gty => negb (fty_eqb lty gty)
+       | _, _ => false
+       end) || goto_type_mismatch env t'
+  | FExit a _ => goto_type_mismatch env a
+  | FParen t' => goto_type_mismatch env t'
+  end.
+Definition goto_type_mismatch_prog (p : fcprog) : bool :=
+  existsb (fun d => goto_type_mismatch (env_of_ctx (fdctx d) []) (fdbody d)) (fcpdefs p).
